@@ -7,6 +7,7 @@ import (
 	"io/ioutil"
 	"os"
 	"path/filepath"
+	"sync"
 
 	"github.com/couchbase/nitro"
 )
@@ -106,6 +107,102 @@ func (e *codecEngine) step(toks []string) string {
 			got = append(got, bytesToHex(itm.Bytes()))
 		}
 		return fmt.Sprintf("ok n=%d sum=%d items=%s", len(got), r.Checksum(), list(got))
+	case toks[0] == "pwrite" && len(toks) == 4:
+		// W writers of ONE instance write their own files at the same time, then W readers read them back at the
+		// same time: every file must round-trip and the reader's checksum must equal the writer's (what
+		// StoreToDisk/LoadFromDisk do with concurrency > 1). Items are a function of (seed, writer, index).
+		nw, ok := natArg(toks[1:], "w")
+		n, ok2 := natArg(toks[1:], "n")
+		seed, ok3 := natArg(toks[1:], "seed")
+		if !ok || !ok2 || !ok3 || nw < 1 || nw > 16 || n > 100000 {
+			return "bad-op"
+		}
+		gen := func(w, i int) []byte {
+			x := uint64(seed)*2862933555777941757 + uint64(w)*3202034522624059733 + uint64(i)*6364136223846793005 + 1442695040888963407
+			x ^= x >> 29
+			l := 1 + int(x%uint64(1+(i%7)*97))
+			b := make([]byte, l)
+			for j := range b {
+				x = x*6364136223846793005 + 1442695040888963407
+				b[j] = byte(x >> 56)
+			}
+			return b
+		}
+		res := make([]string, nw)
+		sums := make([]uint32, nw)
+		start := make(chan struct{})
+		var wg sync.WaitGroup
+		for w := 0; w < nw; w++ {
+			wg.Add(1)
+			go func(w int) {
+				defer wg.Done()
+				path := filepath.Join(e.dir, fmt.Sprintf("p%d", w))
+				os.Remove(path)
+				fw := e.db.VerifNewFileWriter()
+				if err := fw.Open(path); err != nil {
+					res[w] = "err " + err.Error()
+					return
+				}
+				<-start
+				for i := 0; i < n; i++ {
+					if err := fw.WriteItem(e.db.VerifNewItem(gen(w, i))); err != nil {
+						res[w] = "err " + err.Error()
+						return
+					}
+				}
+				sums[w] = fw.Checksum()
+				if err := fw.Close(); err != nil {
+					res[w] = "err " + err.Error()
+				}
+			}(w)
+		}
+		close(start)
+		wg.Wait()
+		start = make(chan struct{})
+		for w := 0; w < nw; w++ {
+			wg.Add(1)
+			go func(w int) {
+				defer wg.Done()
+				if res[w] != "" {
+					return
+				}
+				fr := e.db.VerifNewFileReader(1)
+				if err := fr.Open(filepath.Join(e.dir, fmt.Sprintf("p%d", w))); err != nil {
+					res[w] = "err " + err.Error()
+					return
+				}
+				defer fr.Close()
+				<-start
+				for i := 0; ; i++ {
+					itm, err := fr.ReadItem()
+					if err != nil {
+						res[w] = fmt.Sprintf("mismatch writer=%d item=%d read-error", w, i)
+						return
+					}
+					if itm == nil {
+						if i != n {
+							res[w] = fmt.Sprintf("mismatch writer=%d items=%d of %d", w, i, n)
+						}
+						break
+					}
+					if i >= n || !bytes.Equal(itm.Bytes(), gen(w, i)) {
+						res[w] = fmt.Sprintf("mismatch writer=%d item=%d", w, i)
+						return
+					}
+				}
+				if res[w] == "" && fr.Checksum() != sums[w] {
+					res[w] = fmt.Sprintf("mismatch writer=%d checksum", w)
+				}
+			}(w)
+		}
+		close(start)
+		wg.Wait()
+		for _, r := range res {
+			if r != "" {
+				return r
+			}
+		}
+		return "ok"
 	case toks[0] == "kv" && len(toks) == 3:
 		k, ok := hexToBytes(toks[1])
 		v, ok2 := hexToBytes(toks[2])
